@@ -15,10 +15,11 @@ class Stream:
     """
 
     def __init__(self, name, cases, nontrivial=None, classify=None, spec_eq=None, model_eq=None,
-                 derive=None, shrinkable=True):
+                 derive=None, shrinkable=True, nt_on_impl=False):
         self.name, self.cases = name, cases
         self.derive = derive          # derive(cases, impl_outs) -> [dict(req=, expect=, kind='model'|'spec', why=, history=[lines])]
         self.shrinkable = shrinkable
+        self.nt_on_impl = nt_on_impl
         self.nontrivial = nontrivial or (lambda c, o: True)
         self.classify = classify or (lambda c, i, s: None)
         self.spec_eq = spec_eq or (lambda i, s: i == s)
@@ -176,7 +177,7 @@ def main(argv):
         out_hist = {}
         for i, c in enumerate(st.cases):
             out_hist[model[i][:24]] = out_hist.get(model[i][:24], 0) + 1
-            if st.nontrivial(c, model[i]):
+            if st.nontrivial(c, impl[i] if st.nt_on_impl else model[i]):
                 n_nt += 1
                 distinct.add((st.name, c.get("tag", c["req"])))
             if not st.model_eq(impl[i], model[i]):
